@@ -426,12 +426,65 @@ def find_function(docs, name, nparams, template):
     return out
 
 
+def default_infix(fn_decl):
+    """the default argument of the parameter `infix`, when it is std::string("<literal>")"""
+    for p in inner(fn_decl):
+        if p.get("kind") == "ParmVarDecl" and is_string_type(p) and inner(p):
+            lits = []
+
+            def walk(n):
+                if isinstance(n, dict):
+                    if n.get("kind") == "StringLiteral":
+                        lits.append(n.get("value"))
+                    for c in n.get("inner", []) or []:
+                        walk(c)
+            walk(p)
+            if len(lits) == 1 and len(lits[0]) >= 2 and lits[0][0] == '"' and lits[0][-1] == '"' and "\\" not in lits[0]:
+                return "Some [" + "; ".join("x%02x" % b for b in lits[0][1:-1].encode("latin-1")) + "]"
+            raise Unreadable("default argument of %s" % p.get("name"))
+    raise Unreadable("no defaulted string parameter")
+
+
+def vector_overload_forwards(fn_decl):
+    """join(const std::vector<std::string>& strs, infix) { return join(strs.[c]begin(), strs.[c]end(), infix); }"""
+    params = [c for c in inner(fn_decl) if c.get("kind") == "ParmVarDecl"]
+    body = [c for c in inner(fn_decl) if c.get("kind") == "CompoundStmt"]
+    if len(params) != 2 or len(body) != 1 or "vector<" not in qual(params[0]) or not qual(params[0]).strip().startswith("const"):
+        raise Unreadable("vector overload signature")
+    st = inner(body[0])
+    if len(st) != 1 or st[0].get("kind") != "ReturnStmt":
+        raise Unreadable("vector overload body")
+    call = strip(inner(st[0])[0])
+    while call.get("kind") in ("CXXConstructExpr",) and len(inner(call)) == 1:
+        call = strip(inner(call)[0])
+    if call.get("kind") != "CallExpr":
+        raise Unreadable("vector overload does not forward")
+    parts = inner(call)
+    if (strip(parts[0]).get("referencedDecl") or {}).get("name") != "join" or len(parts) != 4:
+        raise Unreadable("vector overload does not call join/3")
+
+    def rng(e, names):
+        e = strip(e)
+        while e.get("kind") == "CXXConstructExpr" and len(inner(e)) == 1:
+            e = strip(inner(e)[0])
+        if e.get("kind") != "CXXMemberCallExpr" or len(inner(e)) != 1:
+            return False
+        callee = strip(inner(e)[0])
+        o = strip(inner(callee)[0]) if inner(callee) else {}
+        return callee.get("name") in names and (o.get("referencedDecl") or {}).get("id") == params[0].get("id")
+    third = strip(parts[3])
+    if not (rng(parts[1], ("begin", "cbegin")) and rng(parts[2], ("end", "cend"))
+            and (third.get("referencedDecl") or {}).get("id") == params[1].get("id")):
+        raise Unreadable("vector overload arguments")
+    return True
+
+
 SPEC = [("split", 2, False), ("replace_all", 3, False), ("starts_with", 2, False), ("join", 3, True)]
 
 
 def generate(repo):
     head = ("(* GENERATED by gen/tr_string.py from include/nitro/lang/string.hpp on every run — do not edit *)\n"
-            "From Coq Require Import List.\nFrom Nitro Require Import Base.Bytes Str.StrLang.\nImport ListNotations.\n")
+            "From Coq Require Import List.\nFrom Coq Require Import Init.Byte.\nFrom Nitro Require Import Base.Bytes Str.StrLang.\nImport ListNotations.\n")
     lines = []
     for name, np, tmpl in SPEC:
         try:
@@ -446,6 +499,20 @@ def generate(repo):
         except Unreadable as e:
             lines.append("(* %s unreadable: %s *)" % (name, str(e).replace("*)", "* )")))
             lines.append("Definition gen_%s : fn := {| fn_params := 0; fn_locals := 0; fn_body := SUnknown |}." % name)
+    # the two overloads of join: same default infix, the vector overload forwards to the iterator overload
+    try:
+        docs = clang_ast(repo, "nitro::lang::join")
+        it = find_function(docs, "join", 3, True)
+        vec = find_function(docs, "join", 2, False)
+        if len(it) != 1 or len(vec) != 1:
+            raise Unreadable("%d iterator / %d vector overloads of join" % (len(it), len(vec)))
+        lines.append("Definition gen_join_default_infix_iter : option str := %s." % default_infix(it[0]))
+        lines.append("Definition gen_join_default_infix_vec : option str := %s." % default_infix(vec[0]))
+        lines.append("Definition gen_join_vector_forwards : bool := %s." % ("true" if vector_overload_forwards(vec[0]) else "false"))
+    except Unreadable as e:
+        lines.append("(* join overloads unreadable: %s *)" % str(e).replace("*)", "* )"))
+        lines.append("Definition gen_join_default_infix_iter : option str := None.\nDefinition gen_join_default_infix_vec : option str := None.")
+        lines.append("Definition gen_join_vector_forwards : bool := false.")
     return [("GenString.v", head + "\n".join(lines) + "\n")]
 
 
